@@ -25,7 +25,7 @@ func init() {
 		Rule: "case = one downlink history on one UE context: pair (NIA1|NIA2)x(NEA0|NEA1|NEA2) by index, random keys, up to 300 (quick) / 700 (thorough) messages; the AMF side sends plain messages, integrity-only messages in clear " +
 			"(types 1,3) and ciphered ones (types 2,4); its COUNT advances by 1 or by random skips 1..40 (lost messages), wraps the 8-bit SQN several times, and new-context messages reset it to 0. " +
 			"After each message: decoded message == library decode of the plain bytes, DLCount == AMF COUNT. One message in four goes through GetNasPdu inside a DownlinkNASTransport. " +
-			"distinct = hash(keys, history); non-trivial = >= 2 protected messages",
+			"Cases 0..2 are pre-computed vectors: NAS-MAC 00000000; a MAC that also verifies under the stale overflow value at the 255->0 wrap; the same after skipped sequence numbers (COUNT 8 -> 0x107). distinct = hash(keys, history); non-trivial = >= 2 protected messages",
 		Assumptions: []string{
 			"BEARER = 1, DIRECTION = 1 (downlink); skips stay below 128 so the COUNT estimate is unambiguous",
 			"MAC verification failures are not part of this property (the library only prints them)",
